@@ -62,6 +62,11 @@ func (p *profile) Parse(rawUrl string) (*url.Url, error) {
 }
 
 func (p *profile) ParseRef(rawUrl, ref string) (*url.Url, error) {
+	if rawUrl == "" {
+		// no base, as in the underlying parser's ParseRef
+		return p.Parse(ref)
+	}
+
 	b, err := p.Parser.Parse(rawUrl)
 	if err != nil {
 		if errors.Type(err) == errors.MissingSchemeNonRelativeURL && p.defaultScheme != "" {
